@@ -133,6 +133,18 @@ def run(tier):
     # every spelling of integer literals (separators, bases, suffixes)
     for kl, lit in enumerate(["0b1010_1010", "0b_1", "0b1_", "0x_FF", "0xF_F", "1_000", "1__0", "0_", "0b", "0x", "0b2", "1_u8", "0b1010_1010u8", "0xFFu8", "0b0", "0x0", "00", "0_0"]):
         cases.append(("li%d" % kl, "fn main()\n{\n\tvar mask = %s;\n}\n" % lit, "literal-spellings"))
+    # a faulty structure or constant next to functions that use it (the functions are then poisoned without an
+    # error of their own: the diagnostics of the declaration must survive the combination) and next to functions
+    # with an error of their own
+    faulty = ["struct Foo\n{\n\tx: i32,\n\ty: Bar,\n}\n", "struct Foo\n{\n\tx: i32,\n\tx: i32,\n}\n", "struct Foo\n{\n\tx: i32,\n\tv: []i32,\n}\n",
+              "word8 Foo\n{\n\tx: i32,\n}\n", "struct Foo\n{\n\tx: i32,\n\tf: Foo,\n}\n", "const Foo: []i32 = 1;\n", "const Foo: i32 = Foo + 1;\n", "const Foo: i32 = true;\n"]
+    users = ["fn main() -> i32\n{\n\tvar foo: Foo;\n\treturn: 0\n}\n", "fn main() -> i32\n{\n\tvar foo = Foo { x: 1, y: 2 };\n\treturn: foo.x\n}\n", "fn use(f: Foo) -> i32\n{\n\treturn: f.x\n}\nfn main()\n{\n}\n",
+             "fn main() -> i32\n{\n\treturn: Foo\n}\n", "fn main() -> i32\n{\n\tvar n: usize = |:Foo|;\n\treturn: nowhere\n}\n", "fn main()\n{\n}\n"]
+    kf = 0
+    for fd in faulty:
+        for us in users:
+            cases.append(("fu%d" % kf, fd + us, "faulty-declaration-with-users")); kf += 1
+            cases.append(("fu%d" % kf, us + fd, "faulty-declaration-with-users")); kf += 1
     # deep nesting within the stated bound (depth <= 256)
     for d in (32, 128, 256):
         cases.append(("n%da" % d, "fn main() -> i32\n{\n\treturn: " + "(" * d + "1" + ")" * d + "\n}\n", "nesting"))
